@@ -14,8 +14,8 @@ V: every page the real web.Server handlers produce (httptest) over a real direct
      * no request over the corpus fails (418 / template execution error); errors are text/plain+nosniff.
 M: the expressions are exercised at the specification level on the benign renderings: every
    single-token injection (a <script> start tag, an <img onerror src> tag, an on* attribute on an
-   existing tag, a data text in a static position) into an accepted benign page must be rejected
-   (Trace_HtmlSkel_sens.cfg, strided over the positions in the quick tier)."""
+   existing start tag) into an accepted benign page must be rejected (Trace_HtmlSkel.tla with
+   Stride > 0: every 5th position in the quick tier, every position in the thorough tier)."""
 import collections
 import json
 import os
@@ -27,31 +27,38 @@ FILES = ["c36_html_test.go"]
 
 
 def run(ctx):
-    rc, out, trace = ctx.driver(PKG, "^TestVerif_C36_Pages$", FILES, timeout=1800)
-    if rc != 0:
-        raise vk.Inconclusive("driver failed:\n" + out[-3000:])
-    pages = vk.read_ndjson(trace)
-    if len(pages) < 100:
-        raise vk.Inconclusive("too few pages rendered: %d" % len(pages))
-    benign_ok = [p for p in pages if p["variant"] == "benign" and p["status"] == 200]
-    acc, rej = ctx.validate_trace("Trace_HtmlSkel", "Trace_HtmlSkel.cfg", trace, name="tlc_pages", timeout=3600,
-                                  defines={"Stride": 0})
-    by_id = {p["id"]: p for p in pages}
+    pages, rejs, benign_ok = [], [], []
+    for rot in ctx.pick([0], [0, 5, 11]):
+        rc, out, trace = ctx.driver(PKG, "^TestVerif_C36_Pages$", FILES, timeout=1800, env={"VERIF_C36_ROT": rot},
+                                    out="trace_%d.ndjson" % rot)
+        if rc != 0:
+            raise vk.Inconclusive("driver failed:\n" + out[-3000:])
+        ps = vk.read_ndjson(trace)
+        if len(ps) < 100:
+            raise vk.Inconclusive("too few pages rendered: %d" % len(ps))
+        acc, rej = ctx.validate_trace("Trace_HtmlSkel", "Trace_HtmlSkel.cfg", trace, name="tlc_pages_%d" % rot, timeout=3600,
+                                      defines={"Stride": 0})
+        rejs += [(r, ps) for r in rej]
+        pages += ps
+        benign_ok += [p for p in ps if p["variant"] == "benign" and p["status"] == 200]
     per_sig = collections.OrderedDict()
     benign_rejected = []
-    for r in rej:
-        p = pages[r["line"] - 1]
+    nrejected = set()
+    for r, ps in rejs:
+        p = ps[r["line"] - 1]
+        by_id = {x["id"]: x for x in ps}
+        nrejected.add((id(ps), r["line"]))
         why = r["why"]
         if p["variant"] == "benign" and p["path"].startswith("tplfail:") is False and why in ("structure", "twin-status"):
             benign_rejected.append((p["path"], why, r["expected"]))
             continue
         sig = "C36:%s:%s" % (why, p["tmpl"])
-        per_sig.setdefault(sig, []).append((r, p))
+        per_sig.setdefault(sig, []).append((r, p, by_id))
     if benign_rejected:
         # the acceptor is not precise enough for this tree's benign pages: no claim can be made
         raise vk.Inconclusive("the page-structure acceptor rejects benign pages (template changed?): %s" % json.dumps(benign_rejected[:3])[:1500])
     for sig, lst in per_sig.items():
-        r, p = lst[0]
+        r, p, by_id = lst[0]
         det = {"occurrences": len(lst), "request": p["path"], "variant": p["variant"], "status": p["status"], "head": p["head"],
                "why": r["why"], "expected": r["expected"]}
         exp = r["expected"]
@@ -67,7 +74,7 @@ def run(ctx):
                 d = next((k for k in range(min(len(a), len(b))) if a[k] != b[k]), min(len(a), len(b)))
                 det["first_difference"] = {"index": d, "payload": a[max(0, d - 2):d + 3], "benign": b[max(0, d - 2):d + 3]}
         ctx.violation(sig, det, replay={"request": p["path"], "print": p["print"]})
-    ctx.traces_validated = len(pages) - len({r["line"] for r in rej})
+    ctx.traces_validated = len(pages) - len(nrejected)
 
     # M: sensitivity of the expressions on the benign renderings of this tree
     small = {}
@@ -86,9 +93,13 @@ def run(ctx):
                                     defines={"Stride": ctx.pick(5, 1)})
     if rej2:
         raise vk.Inconclusive("the page-structure expressions accept an injected token: %s" % json.dumps(rej2[:3])[:1500])
-    npos = sum((len(p["toks"]) + ctx.pick(5, 1) - 1) // ctx.pick(5, 1) for p in small.values())
-    ctx.tlc_states += npos * 4
-    ctx.tlc_transitions += npos * 4
+    stride = ctx.pick(5, 1)
+    nmut = 0
+    for p in small.values():
+        pos = [j for j in range(1, len(p["toks"]) + 2) if j % stride == 1 % stride]
+        nmut += 2 * len(pos) + sum(1 for j in pos if j <= len(p["toks"]) and p["toks"][j - 1]["k"] == "S")
+    ctx.tlc_states += nmut
+    ctx.tlc_transitions += nmut
 
     nontrivial = sum(1 for p in pages if p["variant"] == "payload" and p["ndata"] > 0)
     ctx.sample({"request": pages[0]["path"], "tokens": len(pages[0]["toks"]), "data_slots": pages[0]["ndata"]})
@@ -105,6 +116,6 @@ def run(ctx):
         rule="evaluations = pages rendered by the real handlers and validated by Trace_HtmlSkel.tla (payload and benign twin, "
              "Print on/off); non-trivial = payload pages in which at least one token carries a planted value",
         exhaustive=False,
-        extra={"sensitivity_mutations_rejected": npos * 4,
+        extra={"sensitivity_mutations_rejected": nmut,
                "pages_by_template": dict(collections.Counter(p["tmpl"] for p in pages)),
                "payload_pages_200": sum(1 for p in pages if p["variant"] == "payload" and p["status"] == 200)})
